@@ -427,25 +427,9 @@ func deleteConfigEntryTxn(tx WriteTxn, idx uint64, kind, name string, entMeta *a
 	switch x := c.(type) {
 	case *structs.ServiceConfigEntry:
 		if x.Destination != nil {
-			gsKind, err := GatewayServiceKind(tx, sn.Name, &sn.EnterpriseMeta)
-			if err != nil {
-				return fmt.Errorf("failed to get gateway service kind for service %s: %v", sn.Name, err)
-			}
-			if gsKind == structs.GatewayServiceKindDestination {
-				gsKind = structs.GatewayServiceKindUnknown
-			}
 			serviceName := structs.NewServiceName(c.GetName(), c.GetEnterpriseMeta())
-			if err := checkGatewayWildcardsAndUpdate(tx, idx, &serviceName, nil, gsKind); err != nil {
-				return fmt.Errorf("failed updating gateway mapping: %s", err)
-			}
-			if err := cleanupGatewayWildcards(tx, idx, serviceName, true); err != nil {
-				return fmt.Errorf("failed to cleanup gateway mapping: \"%s\"; err: %v", serviceName, err)
-			}
-			if err := checkGatewayAndUpdate(tx, idx, &serviceName, gsKind); err != nil {
-				return fmt.Errorf("failed updating gateway mapping: %s", err)
-			}
-			if err := cleanupKindServiceName(tx, idx, serviceName, structs.ServiceKindDestination); err != nil {
-				return fmt.Errorf("failed to cleanup service name: \"%s\"; err: %v", serviceName, err)
+			if err := cleanupServiceDefaultsDestination(tx, idx, serviceName); err != nil {
+				return err
 			}
 		}
 	}
@@ -484,6 +468,33 @@ func deleteConfigEntryTxn(tx WriteTxn, idx uint64, kind, name string, entMeta *a
 	return nil
 }
 
+// cleanupServiceDefaultsDestination removes what a service-defaults entry with a Destination
+// contributed to the gateway-services and kind-service-names tables. It is called while the
+// entry that carries the destination is still stored (it is being deleted or replaced by one
+// without a destination).
+func cleanupServiceDefaultsDestination(tx WriteTxn, idx uint64, serviceName structs.ServiceName) error {
+	gsKind, err := GatewayServiceKind(tx, serviceName.Name, &serviceName.EnterpriseMeta)
+	if err != nil {
+		return fmt.Errorf("failed to get gateway service kind for service %s: %v", serviceName.Name, err)
+	}
+	if gsKind == structs.GatewayServiceKindDestination {
+		gsKind = structs.GatewayServiceKindUnknown
+	}
+	if err := checkGatewayWildcardsAndUpdate(tx, idx, &serviceName, nil, gsKind); err != nil {
+		return fmt.Errorf("failed updating gateway mapping: %s", err)
+	}
+	if err := cleanupGatewayWildcards(tx, idx, serviceName, true); err != nil {
+		return fmt.Errorf("failed to cleanup gateway mapping: \"%s\"; err: %v", serviceName, err)
+	}
+	if err := checkGatewayAndUpdate(tx, idx, &serviceName, gsKind); err != nil {
+		return fmt.Errorf("failed updating gateway mapping: %s", err)
+	}
+	if err := cleanupKindServiceName(tx, idx, serviceName, structs.ServiceKindDestination); err != nil {
+		return fmt.Errorf("failed to cleanup service name: \"%s\"; err: %v", serviceName, err)
+	}
+	return nil
+}
+
 func insertConfigEntryWithTxn(tx WriteTxn, idx uint64, conf structs.ConfigEntry) error {
 	if conf == nil {
 		return fmt.Errorf("cannot insert nil config entry")
@@ -519,6 +530,19 @@ func insertConfigEntryWithTxn(tx WriteTxn, idx uint64, conf structs.ConfigEntry)
 
 			if err := upsertKindServiceName(tx, idx, structs.ServiceKindDestination, sn); err != nil {
 				return fmt.Errorf("failed to persist service name: %v", err)
+			}
+		} else {
+			// An update may drop the destination of the stored entry: the name then stops being
+			// a destination, exactly as if the entry had been deleted.
+			_, existing, err := configEntryTxn(tx, nil, structs.ServiceDefaults, conf.GetName(), conf.GetEnterpriseMeta())
+			if err != nil {
+				return err
+			}
+			if old, ok := existing.(*structs.ServiceConfigEntry); ok && old.Destination != nil {
+				sn := structs.NewServiceName(conf.GetName(), conf.GetEnterpriseMeta())
+				if err := cleanupServiceDefaultsDestination(tx, idx, sn); err != nil {
+					return err
+				}
 			}
 		}
 	case structs.SamenessGroup:
